@@ -23,7 +23,7 @@ pub fn gen_c07(out: &mut dyn Write, thorough: bool, seed: u64) {
     let empty = AbsModel { char_w: 1, type_w: 1, ..Default::default() };
     let mut models: Vec<AbsModel> = vec![empty];
     let opts = GenOpts { windows: &[1, 2, 3, 9, 255], max_ngrams: 4, max_words: 3, max_word_len: 5 };
-    let n_models = if thorough { 1500 } else { 40 };
+    let n_models = if thorough { 120 } else { 40 };
     for i in 0..n_models {
         let (mut m, alpha) = gen_model(&mut r, &opts);
         if i % 2 == 0 {
